@@ -193,7 +193,7 @@ func c01Gen(rng *verifsim.RNG, idx int, tier string) *Plan {
 		// the address (or loopback route) listing fails now and then: whatever
 		// needs it is not built, nothing goes out with the options left out
 		seam := []string{"rtnl.addr", "rtnl.addr", "rtnl.route"}[rng.Intn(3)]
-		p.Faults = append(p.Faults, Fault{Seam: seam, From: int64(rng.Dur(0, horizon)), Count: rng.Range(1, 3), Err: []string{"nl.EPERM", "nl.EINVAL", "opaque"}[rng.Intn(3)]})
+		p.Faults = append(p.Faults, Fault{Seam: seam, From: int64(rng.Dur(0, horizon)), Count: rng.Range(1, 3), Err: []string{"nl.EPERM", "nl.EINVAL", "opaque", "nl.ENODEV"}[rng.Intn(4)]})
 		p.Class += "+failing-listing"
 	}
 
